@@ -58,7 +58,7 @@ func runCase(r *mon.Rec, idx int, hits map[int]int) {
 	// Oracle A: library round trip against the generator's tree
 	got := proj.M6(m2).String()
 	if got != ws {
-		r.Violate("C02:roundtrip-mismatch:"+kindAt(ws, got), "decoded value differs from the value encoded: "+tree.Diff(ws, got), rp)
+		r.Violate("C02:roundtrip-mismatch:"+tree.KindAt(ws, got), "decoded value differs from the value encoded: "+tree.Diff(ws, got), rp)
 		return
 	}
 	// Oracle B: independent decoder on the emitted bytes
@@ -72,7 +72,7 @@ func runCase(r *mon.Rec, idx int, hits map[int]int) {
 		return
 	}
 	if rs := res.Tree.String(); rs != ws {
-		r.Violate("C02:wire-mismatch:"+kindAt(ws, rs), "emitted bytes are not the RFC layout of the field values: "+tree.Diff(ws, rs), rp)
+		r.Violate("C02:wire-mismatch:"+tree.KindAt(ws, rs), "emitted bytes are not the RFC layout of the field values: "+tree.Diff(ws, rs), rp)
 		return
 	}
 	paths := want.Paths()
@@ -116,35 +116,6 @@ func firstKindDiffErr(err error) string {
 	}, s)
 }
 
-// kindAt names the node kind enclosing the first difference (stable violation key).
-func kindAt(a, b string) string {
-	i := 0
-	for i < len(a) && i < len(b) && a[i] == b[i] {
-		i++
-	}
-	// walk back to the nearest "kind{"
-	j := i
-	if j > len(a) {
-		j = len(a)
-	}
-	depth := 0
-	for k := j - 1; k >= 0; k-- {
-		switch a[k] {
-		case '}':
-			depth++
-		case '{':
-			if depth == 0 {
-				s := k
-				for s > 0 && (a[s-1] >= 'a' && a[s-1] <= 'z' || a[s-1] >= '0' && a[s-1] <= '9' || a[s-1] == '-') {
-					s--
-				}
-				return a[s:k]
-			}
-			depth--
-		}
-	}
-	return "top"
-}
 
 func trunc(s string) string {
 	if len(s) > 500 {
